@@ -1,6 +1,6 @@
 (* Dispatch entries for the emitter model (Graph/Steps.v, Graph/Emit.v). *)
 From BFG Require Import Base.Chars Base.Sx Make.MakeSem Graph.Steps Graph.Emit Graph.EmitSem Graph.StampSem
-  Graph.EmitStamp.
+  Graph.EmitStamp Graph.StampFail.
 From Coq Require Import String.
 Local Open Scope N_scope.
 
@@ -50,6 +50,8 @@ Definition un_xrule (x : sx) : xrule :=
 Definition sx_xrule (r : xrule) : sx :=
   L [A (x_target r); sx_list A (x_prereqs r); sx_list A (x_order r); sx_rkind (x_recipe r); sx_bool (x_phony r);
      sx_list A (x_also r); A (x_lag r)].
+Definition un_rcmd (x : sx) : rcmd := match un_N x with 0 => RcStep | 1 => RcTouch | _ => RcNoop end.
+Definition sx_rcmd (k : rcmd) : sx := A (match k with RcStep => 0 | RcTouch => 1 | RcNoop => 2 end).
 Definition un_fsl (x : sx) : fs := fs_of (List.map (fun e => (un_N (nth_sx 0 e), un_N (nth_sx 1 e))) (un_list x)).
 
 Definition table : list (string * (sx -> sx)) := [
@@ -60,6 +62,24 @@ Definition table : list (string * (sx -> sx)) := [
        (run_session (List.map un_xrule (un_list (nth_sx 0 a))) (un_Ns (nth_sx 1 a)) (un_fsl (nth_sx 2 a))
                     (un_N (nth_sx 3 a))
                     (List.map (fun o => (un_N (nth_sx 0 o), un_N (nth_sx 1 o))) (un_list (nth_sx 4 a)))));
+  (* the same with explicit recipes and failing runs (Graph/StampFail.v):
+     [rules; goals; fs; clk; ops; recipes = [[target; [cmd..]]..]]  cmd: 0 = the step's own command, 1 = touch $@, 2 = the no-op;
+     ops as above and [3; t] = make in which the own command of rule t fails
+     -> per make: [steps whose command ran and succeeded; targets whose recipe ran without an own command; make stopped] *)
+  ("stamp.fsession", fun a =>
+     sx_list (fun r => L [sx_list A (fst (fst r)); sx_list A (snd (fst r)); sx_bool (snd r)])
+       (frun_session
+          (cm_of (List.map (fun e => (un_N (nth_sx 0 e), List.map un_rcmd (un_list (nth_sx 1 e)))) (un_list (nth_sx 5 a))))
+          (List.map un_xrule (un_list (nth_sx 0 a))) (un_Ns (nth_sx 1 a)) (un_fsl (nth_sx 2 a))
+          (un_N (nth_sx 3 a))
+          (List.map (fun o => (un_N (nth_sx 0 o), un_N (nth_sx 1 o))) (un_list (nth_sx 4 a)))));
+  (* [tb; rules] -> the recipe of each rule as the semantics reads it (cmds_of) *)
+  ("stamp.cmds_of", fun a =>
+     sx_list (fun r => sx_list sx_rcmd (cmds_of (un_bool (nth_sx 0 a)) (un_xrule r))) (un_list (nth_sx 1 a)));
+  (* [tb; fx; step] -> the recipe lines of each registered rule, in order *)
+  ("emit.make_recipes", fun a =>
+     sx_opt (sx_list (sx_list sx_rcmd))
+            (emit_make_recipes (un_bool (nth_sx 0 a)) (un_bool (nth_sx 1 a)) (un_step (nth_sx 2 a))));
   (* [steps; x] -> [simple for each step; script_down x steps; multi for each step; step_target of the steps that re-run] *)
   ("emit.script_down", fun a =>
      let steps := List.map un_step (un_list (nth_sx 0 a)) in
